@@ -16,6 +16,7 @@ For a generated corpus of texts, one shipped analyzer configuration and one fiel
      marked span is made of source texts of matched query terms.
 """
 import html
+import random
 import re
 
 LEVEL = "exploration"
@@ -355,6 +356,33 @@ def one_case(ctx, rng, CAT, names):
         return (aname, kind, "index-failed"), False, wit0
     nontrivial = False
     sample = None
+    # every second case: the index is re-opened from its storage, as a search process would do it. The schema - and with it
+    # the analyzer configuration used at QUERY time - then comes from the pickle in the TOC, not from the object in memory
+    if random.Random("c17-reopen:%r" % rng.random()).random() < 0.5:
+        try:
+            ix = ix.storage.open_index()
+            schema = ix.schema
+            qfield = schema["f"]
+            docs = [None if d is None else (d[0], d[1], list(qfield.process_text(d[0], mode="query"))) for d in docs]
+            ctx.count("cases.reopened_schema")
+            wit0 = dict(wit0, schema="unpickled from the TOC")
+            # the unpickled analyzer must analyse exactly as the one the documents were indexed with
+            for d in docs:
+                if d is None or qfield.analyzer is None:
+                    continue
+                again = analyse(qfield.analyzer, d[0], "index")
+                ctx.count("reopen.stream_compares")
+                if [t.tup() for t in again] != [t.tup() for t in d[1]]:
+                    ctx.fail("reopen.analysis", "index-mode-stream-differs-after-schema-round-trip:%s" % aname,
+                             dict(wit0, text=short(d[0], 400), before=[t.tup() for t in d[1]][:12],
+                                  after=[t.tup() for t in again][:12]))
+                    break
+        except Exception as e:  # noqa
+            mech, in_harness = exc_mech("reopen", e)
+            if in_harness:
+                raise
+            ctx.fail("index", mech, dict(wit0, texts=[short(t, 200) for t in texts]), traceback.format_exc()[-2000:])
+            return (aname, kind, "reopen-failed"), False, wit0
     try:
         parser = qparser.QueryParser("f", schema)
     except Exception:  # noqa
